@@ -169,6 +169,7 @@ def run(ctx):
     no_path_cases(ctx, S, ns)
     spec_reading_cases(ctx)
     helper_subroutine_cases(ctx)
+    route_agreement_cases(ctx)
     branch_selected_cases(ctx, S)
     no_switch_cases(ctx, S)
     tone_list_cases(ctx, S)
@@ -500,6 +501,52 @@ def helper_subroutine_cases(ctx):
     ctx.count("helper subroutines holding forward / reversed device functions of two same-named kernels x routes: agree", n_ok)
 
 
+def route_agreement_cases(ctx):
+    """kernels on which the routes can only agree by all answering the same way: a pure statement whose result is unused and that fails for
+    the arguments given (an index past the end of a list, a sub-grid outside the grid), and a float constant asked for under a name the spec
+    only knows as an INT constant - every route returns the same path, or no route returns one"""
+    S = tweezer_prog.harness_spec()
+    kernels_src = {
+        "unused failing index": ('@tweezer\ndef kz(xs: ilist.IList[float, Any], p0: float):\n    spare = xs[2]\n    g = grid.from_positions(xs, [0.0])\n    action.set_loc(g)\n    action.move(grid.shift(g, p0, 0.0))\n',
+                                 "IL([1.0, 3.0]), 2.0", "xs0, x0", "xs0: ilist.IList[float, Any], x0: float"),
+        "unused out-of-range view": ('@tweezer\ndef kz(xs: ilist.IList[float, Any], p0: float):\n    g = grid.from_positions(xs, [0.0])\n    spare = grid.sub_grid(g, [5], [0])\n    action.set_loc(g)\n    action.move(grid.shift(g, p0, 0.0))\n',
+                                     "IL([1.0, 3.0]), 2.0", "xs0, x0", "xs0: ilist.IList[float, Any], x0: float"),
+        "float constant known only as an int constant": ('@tweezer\ndef kz(xs: ilist.IList[float, Any], p0: float):\n    g = grid.from_positions(xs, [0.0])\n    action.set_loc(g)\n'
+                                                         '    action.move(grid.shift(g, p0, spec.get_float_constant(constant_id="rows")))\n', "IL([1.0, 3.0]), 2.0", "xs0, x0", "xs0: ilist.IList[float, Any], x0: float"),
+    }
+    from kirin.dialects import ilist as _il
+    IL = lambda l: _il.IList(l)
+    n = 0
+    for kname, (ksrc, consts, params_call, params_sig) in kernels_src.items():
+        outcomes = {}
+        try:
+            kz = kernels.define(ksrc)["kz"]
+        except Exception as e:
+            ctx.hist("route agreement", f"{kname}: the kernel is refused at definition ({type(e).__name__})")
+            continue
+        for rname, dec, plain, byparam in ROUTES:
+            call = f"f({params_call})" if byparam is True else "f(XS, 2.0)" if byparam is False else "f(XS, x0)"
+            sig = params_sig if byparam is True else "" if byparam is False else "x0: float"
+            args = (IL([1.0, 3.0]), 2.0) if byparam is True else () if byparam is False else (2.0,)
+            src = f"@move{dec}\ndef main({sig}):\n    f = schedule.device_fn(kz, [0, 1], [0])\n    {call}\n    schedule.reverse(f)(p0=2.0, xs=XS)\n"
+            ctx.evaluations += 1
+            n += 1
+            try:
+                m = kernels.define(src, S=S, kz=kz, XS=IL([1.0, 3.0]))["main"]
+                st, evs, extra = events.run_events(m, args, S, plain=plain)
+                outcomes[rname] = "paths: " + " | ".join(pos_text(tc.abstract_path(e[1].path)) for e in evs if e[0] == "play") if st == "ok" else "no path"
+            except Exception as e:
+                outcomes[rname] = "no path"
+        ctx.hist("route agreement", f"{kname}: {'all routes: ' + next(iter(outcomes.values()))[:40] if len(set(outcomes.values())) == 1 else 'ROUTES DIFFER'}")
+        if len(set(outcomes.values())) != 1:
+            a, b = sorted(outcomes.items(), key=lambda kv: kv[1])[0], sorted(outcomes.items(), key=lambda kv: kv[1])[-1]
+            ctx.fail({"kind": "routes-disagree", "kernel": kname}, {"route_agreement": True, "kernel": kname},
+                     f"device kernel with {kname}: route `{a[0]}` gives {a[1][:90]} while route `{b[0]}` gives {b[1][:90]}")
+        else:
+            ctx.nt(("route-agreement", kname))
+    ctx.count("kernels on which all routes must answer alike (unused failing statements, a float constant known only as an int) x routes", n)
+
+
 def _visualized(m, args, S):
     """the paths the library's PathVisualizer (a spec-carrying interpreter) hands to its renderer"""
     from vcommon import stubs
@@ -685,6 +732,16 @@ def no_path_cases(ctx, S, ns):
 
 
 def replay(data):
+    if data["input"].get("route_agreement"):
+        class C:
+            def __init__(s): s.fails, s.evaluations = [], 0
+            def fail(s, sig, rep, what): s.fails.append(what)
+            def nt(s, *a): pass
+            def count(s, *a): pass
+            def hist(s, *a): pass
+        c = C()
+        route_agreement_cases(c)
+        return bool(c.fails), (c.fails or ["all routes answer alike"])[0][:200]
     if data["input"].get("helper_subroutines"):
         class C:
             def __init__(s): s.fails, s.evaluations = [], 0
